@@ -101,8 +101,22 @@ fn local_wrap(ctx: &mut Ctx, inner: &[u8]) -> Vec<u8> {
 fn in_context(ctx: &mut Ctx, id: &[u8], depth: u32) -> (Vec<u8>, &'static str) {
     let r = &mut ctx.rng;
     let mut v = vec![];
-    let k = r.below(7);
+    let is_pid = matches!(id.first(), Some(88) | Some(103)) || (id.first() == Some(&121) && matches!(id.get(9), Some(88) | Some(103)));
+    let k = r.below(8);
     let name = match k {
+        6 if is_pid => {
+            // NEW_FUN_EXT whose creator pid IS the identifier (a pid in the fun's Pid field, any form it arrived in)
+            let mut body = vec![0u8];
+            body.extend_from_slice(&[7u8; 16]);
+            body.extend_from_slice(&[0, 0, 0, 2, 0, 0, 0, 0]);
+            put_atom(&mut body, "mod");
+            body.extend_from_slice(&[97, 5, 97, 6]);
+            body.extend_from_slice(id);
+            v.push(112);
+            v.extend_from_slice(&((body.len() + 4) as u32).to_be_bytes());
+            v.extend_from_slice(&body);
+            "funpid"
+        }
         0 => {
             v.extend_from_slice(&[104, 2, 97, 1]);
             v.extend_from_slice(id);
